@@ -122,6 +122,9 @@ def run(ctx: RuleContext, p: Program) -> None:
     from . import bcline
     ctx.try_rule(bcline.rule_bc_line, p, 'BC-LINE')
     ctx.try_rule(rule_fv_path, p, 'FV-PATH')
+    from . import c12
+    ctx.try_rule(c12.rule_str_boundary, p, c12.grammar(p), 'STR-BOUNDARY', 7 if ctx.tier == 'quick' else 9)
+    ctx.try_rule(c12.rule_fmt_lang, p, c12.grammar(p), 'FMT-LANG')
     ctx.not_decided += ['that the printed text of a constructed model parses (runtime / lexer)',
                         'that the parsed result has equal fields and values (runtime)']
     ctx.assumptions += ['detach()/reattach() semantics as decided under C05', 'separator tokens are deep-copied (SEP-PROV under C03/C11)']
